@@ -466,6 +466,7 @@ fn check_member_with_unresolved_tparams(
           &method_type_info.type_parameters,
           cx.error_set,
         );
+      validate_type_arguments(cx, &method_type_info.type_parameters, &solved_substitution);
       let common = expression.common.with_new_type(solved_generic_type);
       let inferred_type_arguments = method_type_info
         .type_parameters
